@@ -620,6 +620,13 @@ theorem top_over_only_ticks (c : Cfg) (hwf : c.wf = true) (evs : List EvB) (st s
       have := hpcAll s
       rw [hl] at this; simp at this
     · cases hs
+  | orchFail s =>
+    simp only [stepB] at hs
+    split at hs
+    · rename_i hl _
+      have := hpcAll s
+      rw [hl] at this; simp at this
+    · cases hs
   | timeoutFire s =>
     simp only [stepB] at hs
     split at hs
